@@ -150,7 +150,7 @@ inline int harness_main(int argc, char** argv, Harness& h) {
   }
   auto& c = ctx(); c.h = &h; c.variant = variant;
   if (warm > 0) h.warm(warm);
-  if (h.first_use_run() && !plan_only) { vsim::Config wc; wc.seed = 424242; Plan wp = h.generate(424242, 0, wc); wc.faults.clear(); for (auto& f : wp.faults) if (f.size() >= 3) wc.faults.push_back({int(f[0]), f[1], f[2]}); wc.alloc_rate = 0; c.seed = 424242; c.plan = wp; c.cfg = wc; vsim::set_fatal_callback(nullptr); (void)h.run(wp, wc); vsim::set_fatal_callback(fatal_cb); }
+  if (h.first_use_run() && !plan_only) { vsim::Config wc; wc.seed = 424242; Plan wp = h.generate(424242, 0, wc); wc.faults.clear(); for (auto& f : wp.faults) if (f.size() >= 3) wc.faults.push_back({int(f[0]), f[1], f[2]}); wc.alloc_rate = 0; c.seed = 424242; c.plan = wp; c.cfg = wc; c.replaying = true; Outcome wo = h.run(wp, wc); if (wo.cls != "ok") { emit_result(wo.cls, wo.detail, &wo); return 0; } c.replaying = false; }   // a violation in the first-use run is reported under its own seed (424242): the orchestrator stops the worker there
   if (replay) {
     J j = parse_file(replay);
     c.seed = uint64_t(j.geti("seed")); c.plan = plan_from(*j.get("plan")); c.cfg = vsim::Config{}; if (j.get("cfg")) cfg_from(*j.get("cfg"), c.cfg);
